@@ -313,6 +313,27 @@ def visible_nodes(prog: "Program", fi: "FunctionInfo"):
     return out
 
 
+def unpinned_helper_calls(prog: "Program", fi: "FunctionInfo", node: ast.AST):
+    """names of the functions called in `node` that are defined in the analysed package but are not among the pinned ones
+    (ghverif/known_functions.txt) and that the load-time inliner did not expand: what they compute is not visible to a rule
+    that reads the caller - the rule has to give up (fail closed) instead of judging the call by its spelling"""
+    from .inline import known_functions
+
+    known = known_functions()
+    out = []
+    for x in ast.walk(node):
+        if not isinstance(x, ast.Call):
+            continue
+        f = x.func
+        name = f.id if isinstance(f, ast.Name) else (f.attr if isinstance(f, ast.Attribute) and isinstance(f.value, ast.Name) and f.value.id in ("self", "cls") else None)
+        if name is None:
+            continue
+        cands = [q for q in prog.funcs if q.split(".")[-1] == name]
+        if cands and not any(q in known for q in cands):
+            out.append(name)
+    return out
+
+
 def src_line(node: ast.AST):
     """line of the node in the source file (nodes moved by the load-time inliner are renumbered for ordering; see inline.renumber)"""
     return getattr(node, "src_lineno", getattr(node, "lineno", "?"))
